@@ -140,14 +140,20 @@ class Timeout(Exception):
 
 
 def with_alarm(seconds, fn):
+    state = {"armed": True}
+
     def handler(signum, frame):
-        raise Timeout()
+        if state["armed"]:
+            raise Timeout()
     # repeating timer: nipy's cc() has a bare `except: pass` that can swallow a single exception
     old = signal.signal(signal.SIGALRM, handler)
     signal.setitimer(signal.ITIMER_REAL, seconds, 0.02)
     try:
-        return fn()
+        r = fn()
+        state["armed"] = False
+        return r
     finally:
+        state["armed"] = False
         signal.setitimer(signal.ITIMER_REAL, 0, 0)
         signal.signal(signal.SIGALRM, old)
 
@@ -371,9 +377,11 @@ def sec_sp(ck, G, T):
             {"V": V, "edges": edges, "seedsets": seedsets, "impl": rows},
             show="map (fun s => und (dijkstra_model %s %s %s s)) %s" % (cnat(V), cE(edges), cnats(order), sl))
         # checker verdict on the implementation's output must equal the brute-force verdict
-        T.add("sp_check", "list_eqb Bool.eqb (map (fun p => sp_check %s %s (fst p) (mkd (snd p))) (combine %s %s)) %s" % (
-            cnat(V), cE(edges), sl, zll(rows), cbools(verdicts)),
-            {"V": V, "edges": edges, "seedsets": seedsets, "impl": rows, "bruteforce_ok": verdicts})
+        # (quick tier: every 2nd of the exhaustive 3-vertex graphs; all others always)
+        if ck.thorough() or V != 3 or nmodel % 2 == 0 or not all(verdicts):
+            T.add("sp_check", "list_eqb Bool.eqb (map (fun p => sp_check %s %s (fst p) (mkd (snd p))) (combine %s %s)) %s" % (
+                cnat(V), cE(edges), sl, zll(rows), cbools(verdicts)),
+                {"V": V, "edges": edges, "seedsets": seedsets, "impl": rows, "bruteforce_ok": verdicts})
         nmodel += 1
         if V == 3 and len(edges) == 4 and par:
             ck.sample({"V": V, "edges": edges, "dijkstra_rows": rows[:3], "true": [dvec(ref[s]) for s in range(V)]})
@@ -411,7 +419,11 @@ def sec_sym(ck, G, T):
         part_ok = len(lab) == V and all((lab[u] == lab[v]) == (ref_lab[u] == ref_lab[v]) for u in range(V) for v in range(V))
         T.add("cc", "zl_eqb (cc_model %s %s) %s" % (cnat(V), cE(edges), zl(lab)),
               {"V": V, "edges": edges, "impl": lab}, show="cc_model %s %s" % (cnat(V), cE(edges)))
-        if V <= 12:
+        ck._c11_i = getattr(ck, '_c11_i', 0) + 1
+        sparse_q = (not ck.thorough()) and V == 4 and (ck._c11_i % 3 != 0) and part_ok
+        if sparse_q:
+            pass
+        elif V <= 12:
             T.add("cc_check", "Bool.eqb (cc_check %s %s %s) %s" % (cnat(V), cE(edges), zl(lab), "true" if part_ok else "false"),
                   {"V": V, "edges": edges, "impl": lab, "bruteforce_ok": part_ok})
         else:
@@ -488,9 +500,10 @@ def sec_sym(ck, G, T):
             cnat(V), cE(edges), cnats(order), sl, zll(labs)),
             {"V": V, "edges": edges, "seedsets": seedsets, "impl": labs},
             show="map (fun s => snd (voronoi_model %s %s %s s)) %s" % (cnat(V), cE(edges), cnats(order), sl))
-        T.add("vor_check", "list_eqb Bool.eqb (map (fun p => vor_check %s %s (fst (fst p)) (mkd (snd (fst p))) (snd p)) (combine (combine %s %s) %s)) %s" % (
-            cnat(V), cE(edges), sl, zll(dmins), zll(labs), cbools(verdicts)),
-            {"V": V, "edges": edges, "seedsets": seedsets, "impl": labs, "bruteforce_ok": verdicts})
+        if ck.thorough() or V != 4 or ck._c11_i % 3 == 1 or not all(verdicts):
+            T.add("vor_check", "list_eqb Bool.eqb (map (fun p => vor_check %s %s (fst (fst p)) (mkd (snd (fst p))) (snd p)) (combine (combine %s %s) %s)) %s" % (
+                cnat(V), cE(edges), sl, zll(dmins), zll(labs), cbools(verdicts)),
+                {"V": V, "edges": edges, "seedsets": seedsets, "impl": labs, "bruteforce_ok": verdicts})
     ck.section("sym", graphs=len(cases), voronoi_calls=nv)
 
 
@@ -595,7 +608,7 @@ def sec_builders(ck, G, B, T):
             bad = None
             if not np.array_equal(A, A.T) or P.diagonal().any():
                 bad = "adjacency not symmetric or has a diagonal entry"
-            elif not np.array_equal(A[P], np.sqrt(D2.astype(float))[P]):
+            elif not np.array_equal(A[P], np.maximum(np.sqrt(D2.astype(float)), 1e-16)[P]):   # coincident points: 1e-16 as in eps_nn
                 bad = "weights are not the euclidean distances"
             else:
                 within = D2 <= kth[:, None]                  # j among the k nearest of i (ties included)
